@@ -30,11 +30,43 @@ ASSUMPTIONS = ['crossing model of C12 decides components on the model side']
 
 
 @st.composite
+def bridge_group(draw, h):
+    """Four series whose overlap graph is a chain closed by a non-monotone
+    one: B first creeps up over a level shared only with Y, then falls
+    through levels shared with X, which reaches down to A.  In the order
+    the code visits levels, B's later levels bridge two groups that have
+    already formed."""
+    u = int(round(h * 8))            # lattice units per level
+    base = draw(st.integers(-20, 20)) * u
+    frac = draw(st.integers(1, max(1, u - 1))) if u > 1 else 0
+
+    def lv(levels, extra=0):
+        return (base + int(levels * u) + extra) / 8.0
+
+    top_b = 6 * u + max(1, u // 8)
+    a = [lv(3), lv(1)]
+    x = [lv(6, -max(1, u // 4)) if u > 3 else lv(5.5), lv(1.5)]
+    b = [lv(6, -max(1, u // 2)) if u > 1 else lv(5.5),
+         (base + top_b) / 8.0, lv(4.5)]
+    y = [lv(8, -1), lv(6, -max(1, u // 2)) if u > 1 else lv(5.5)]
+    dt = draw(st.sampled_from([600, 1800, 3600]))
+    out = []
+    for ys in (a, b, x, y):
+        x0 = draw(st.sampled_from([0, 1400000000, 86400]))
+        out.append({'x': [float(x0 + k * dt) for k in range(len(ys))],
+                    'y': ys})
+    return out
+
+
+@st.composite
 def cases(draw):
     h = draw(st.sampled_from(gen_series.STEPS))
     n_main = draw(st.integers(2, 7))
     shape = draw(st.sampled_from(['falling', 'falling', 'bumpy', 'rising']))
-    main = draw(gen_series.connected_group(h, n_main, shape=shape))
+    if draw(st.integers(0, 3)) == 0:
+        main = draw(bridge_group(h))
+    else:
+        main = draw(gen_series.connected_group(h, n_main, shape=shape))
     groups = []
     for g in range(draw(st.sampled_from([0, 1, 1, 2]))):
         n_g = draw(st.integers(1, max(1, n_main - 1)))
